@@ -210,9 +210,12 @@ LIB = {1: "create_relativistic_breit_wigner", 2: "create_relativistic_breit_wign
 FORM_BUILDERS = [0, 1, 1, 2, 3, 4, 5, 6]
 
 
-def recording_pool(log: list):
-    """builder id -> callable; every callable records (id, resonance name, variable set)."""
+def recording_pool(log: list, introduced: set | None = None):
+    """builder id -> callable; every callable records (id, resonance name, variable set) and, in `introduced`,
+    the parameters it returned."""
     import sympy as sp
+
+    introduced = set() if introduced is None else introduced
 
     from ampform.dynamics import builder as bld
 
@@ -222,7 +225,14 @@ def recording_pool(log: list):
 
         def rec(resonance, variable_pool, _k=k, _lib=lib):
             log.append((_k, resonance.name, variable_pool))
-            return _lib(resonance, variable_pool)
+            v = variable_pool
+            expr, pars = _lib(resonance, variable_pool)
+            introduced.update(pars)
+            # tag factor: which call's expression is multiplied into which chain amplitude (amplitude skeleton)
+            ell = sp.Symbol("Lnone") if v.angular_momentum is None else sp.Integer(v.angular_momentum)
+            tag = sp.Function(f"Dyn{_k}")(sp.Symbol(resonance.name), v.incoming_state_mass, v.outgoing_state_mass1,
+                                          v.outgoing_state_mass2, ell)
+            return expr * tag, pars
 
         pool[k] = rec
     for k in (4, 5, 6, 7):
@@ -233,6 +243,7 @@ def recording_pool(log: list):
             par = sp.Symbol(f"c_{{{ident}}}")
             f = sp.Function(f"Dyn{_k}")
             ell = sp.Symbol("Lnone") if v.angular_momentum is None else sp.Integer(v.angular_momentum)
+            introduced.add(par)
             return par * f(sp.Symbol(resonance.name), v.incoming_state_mass, v.outgoing_state_mass1,
                            v.outgoing_state_mass2, ell), {par: 1.0}
 
@@ -240,21 +251,82 @@ def recording_pool(log: list):
     return pool
 
 
-def form_line(covers: bool, reaction, tb, ops) -> str:
+# ---- public builder options (HARDENING rule 5): a dimension of every formulated-model case
+#   hc            builder.config.use_helicity_couplings
+#   parent/child/ls  naming flags (insert_parent_helicities / insert_child_helicities / insert_ls_combinations)
+#   align         n | a (AxisAngleAlignment; only where the unfolded intensity stays small)
+#   stable/scalar stable_final_state_ids / scalar_initial_state_mass
+# The chain amplitudes depend on hc and the naming flags only (Model/C13Selector.lean `chainSkel`); the other
+# options are varied on the real side and must leave the chain amplitudes alone.
+
+
+def default_cfg(reaction) -> dict:
+    d = R1.default_cfg(reaction)
+    return {k: d[k] for k in ("hc", "parent", "child", "ls", "align", "stable", "scalar")}
+
+
+def option_cfg(rng, reaction, index: int) -> dict:
+    """`index` cycles deterministically through use_helicity_couplings x alignment; the rest is random."""
+    cfg = default_cfg(reaction)
+    cfg["hc"] = bool(index % 2)
+    want_align = bool((index // 2) % 2)
+    if want_align and len(reaction.final_state) >= 3 and R1.unfold_cost(reaction, "a") <= 150:
+        cfg["align"] = "a"
+    r = rng.random()
+    if r < 0.35:  # naming flags (coupling / coefficient names)
+        cfg["parent"] = rng.random() < 0.5
+        cfg["child"] = rng.random() < 0.6
+        cfg["ls"] = rng.random() < 0.6
+    if rng.random() < 0.3:
+        fs = sorted(reaction.final_state)
+        cfg["stable"] = sorted(rng.sample(fs, rng.randint(0, len(fs))))
+    cfg["scalar"] = rng.random() < 0.3
+    return cfg
+
+
+def cfg_tokens(cfg: dict | None) -> list[str]:
+    cfg = cfg or {"hc": False, "parent": False, "child": True, "ls": True, "align": "n"}
+    return ["G", "a" if cfg.get("align") == "a" else "n", *[str(int(cfg[k])) for k in ("hc", "parent", "child", "ls")]]
+
+
+def describe_cfg(cfg: dict | None):
+    return None if cfg is None else {k: cfg[k] for k in ("hc", "parent", "child", "ls", "align", "stable", "scalar")}
+
+
+def apply_cfg(b, reaction, cfg: dict | None):
+    if cfg is None:
+        return b
+    from ampform.helicity.align import NoAlignment
+    from ampform.helicity.align.axisangle import AxisAngleAlignment
+
+    canonical = reaction.formalism in {"canonical-helicity", "canonical"}
+    b.config.spin_alignment = AxisAngleAlignment() if cfg["align"] == "a" else NoAlignment()
+    b.config.stable_final_state_ids = cfg["stable"]
+    b.config.scalar_initial_state_mass = cfg["scalar"]
+    b.config.use_helicity_couplings = cfg["hc"]
+    b.naming.insert_parent_helicities = cfg["parent"]
+    b.naming.insert_child_helicities = cfg["child"]
+    if canonical:
+        b.naming.insert_ls_combinations = cfg["ls"]
+    return b
+
+
+def form_line(covers: bool, reaction, tb, ops, cfg: dict | None = None) -> str:
     toks = ["form", str(int(covers)), *R1.reaction_tokens(reaction, tb), "M", str(len(tb.particles))]
     for p in tb.particles:
         toks += [str(bits(p.mass)), str(bits(p.width))]
     toks += ["ONE", str(ONE), "O", str(len(ops))]
     for o in ops:
         toks += o["tokens"]
+    toks += cfg_tokens(cfg if cfg is not None else default_cfg(reaction))
     return " ".join(toks)
 
 
-def build_with_ops(reaction, ops, pool, builder=None):
+def build_with_ops(reaction, ops, pool, builder=None, cfg: dict | None = None):
     from ampform.helicity import CanonicalAmplitudeBuilder, HelicityAmplitudeBuilder
 
     canonical = reaction.formalism in {"canonical-helicity", "canonical"}
-    b = builder or (CanonicalAmplitudeBuilder if canonical else HelicityAmplitudeBuilder)(reaction)
+    b = builder or apply_cfg((CanonicalAmplitudeBuilder if canonical else HelicityAmplitudeBuilder)(reaction), reaction, cfg)
     for o in ops:
         try:
             b.dynamics.assign(o["obj"], pool[o["b"]])
@@ -280,37 +352,124 @@ def count_items(items) -> dict:
 DYN_PREFIXES = ("m_{", "\\Gamma_{", "d_{", "c_{")
 
 
-def real_form(reaction, tb, ops):
-    log: list = []
-    lvl = logging.root.manager.disable
-    logging.disable(logging.WARNING)
+class ExprTimeout(Exception):
+    pass
+
+
+class nested_time_limit:
+    """SIGALRM cap that may be used INSIDE an R1.time_limit block: the outer alarm is re-armed on exit."""
+
+    def __init__(self, seconds: int):
+        self.seconds = seconds
+
+    def __enter__(self):
+        import signal
+        import time
+
+        def handler(signum, frame):
+            raise ExprTimeout
+
+        self.t0 = time.time()
+        self.old_handler = signal.signal(signal.SIGALRM, handler)
+        self.old_remaining = signal.alarm(self.seconds)
+
+    def __exit__(self, *a):
+        import signal
+        import time
+
+        signal.alarm(0)
+        signal.signal(signal.SIGALRM, self.old_handler)
+        if self.old_remaining:
+            signal.alarm(max(1, int(self.old_remaining - (time.time() - self.t0))))
+        return False
+
+
+def expression_symbols(model, cap: int = 20) -> set | None:
+    """names of the free symbols of model.expression (None when unfolding takes longer than the cap)"""
     try:
-        try:
-            model = build_with_ops(reaction, ops, recording_pool(log)).formulate()
-        except R1.ERRS as e:
-            return {"error": type(e).__name__}, None
-        calls = count_items([call_key(k, name, v, tb) for k, name, v in log])
-        dfl = {}
-        for par, val in model.parameter_defaults.items():
-            name = getattr(par, "name", str(par))
-            if name.startswith(DYN_PREFIXES):
-                dfl[name] = bits(val)
-        return {"calls": calls, "defaults": dict(sorted(dfl.items()))}, model
-    finally:
-        logging.disable(lvl)
+        with nested_time_limit(cap):
+            return {getattr(x, "name", str(x)) for x in model.expression.free_symbols}
+    except ExprTimeout:
+        return None
 
 
-def _form_answer(model, log, tb) -> dict:
+def skeleton_of(expr, tb) -> str:
+    """coef|couplings|phi:theta;…|dynamics factors of ONE chain amplitude (a product); numbers, Clebsch-Gordan
+    coefficients and the markers' own parameter symbols are not part of the skeleton."""
+    import sympy as sp
+    from sympy.core.function import AppliedUndef
+    from sympy.physics.quantum.spin import WignerD
+
+    coef, hs, ds, fs = [], [], [], []
+
+    def nm(x):
+        return R1.enc_name(getattr(x, "name", str(x)))
+
+    def visit(f, mult):
+        if isinstance(f, sp.Pow) and f.exp.is_Integer and f.exp > 0:
+            visit(f.base, mult * int(f.exp))
+        elif isinstance(f, sp.Symbol):
+            if f.name.startswith("C_{"):
+                coef.extend([nm(f)] * mult)
+            elif f.name.startswith("H_{"):
+                hs.extend([nm(f)] * mult)
+        elif isinstance(f, WignerD):
+            ds.extend([nm(-f.args[3]) + ":" + nm(f.args[4])] * mult)
+        elif isinstance(f, AppliedUndef) and f.func.__name__.startswith("Dyn") and len(f.args) == 5:
+            who, inv, m1, m2, ell = f.args
+            ell_s = "x" if ell == sp.Symbol("Lnone") else str(ell)
+            fs.extend([":".join([f.func.__name__[3:], str(tb.pidx.get(str(who), "?")), nm(inv), nm(m1), nm(m2), ell_s])] * mult)
+        elif isinstance(f, sp.Mul):
+            for g in f.args:
+                visit(g, mult)
+
+    for f in sp.Mul.make_args(expr):
+        visit(f, 1)
+
+    def semi(xs):
+        return ";".join(sorted(xs)) or "-"
+
+    return "|".join([";".join(sorted(coef)) or "x", semi(hs), semi(ds), semi(fs)])
+
+
+def _form_answer(model, log, tb, reaction=None, builder=None, introduced=None) -> dict:
     calls = count_items([call_key(k, name, v, tb) for k, name, v in log])
     dfl = {}
     for par, val in model.parameter_defaults.items():
         name = getattr(par, "name", str(par))
         if name.startswith(DYN_PREFIXES):
             dfl[name] = bits(val)
-    return {"calls": calls, "defaults": dict(sorted(dfl.items()))}
+    out = {"calls": calls, "defaults": dict(sorted(dfl.items()))}
+    if builder is not None:
+        skel = {}
+        for k, _t in enumerate(reaction.transitions):
+            for j, ch in enumerate(tb.chains[k]):
+                name = "A_{" + builder.naming.generate_amplitude_name(ch) + "}"
+                comp = model.components.get(name)
+                skel[f"{k}/{j}"] = (name, "missing" if comp is None else skeleton_of(comp, tb))
+        out["skel"] = skel
+        free = expression_symbols(model)
+        if free is not None:  # dynamics parameters (by name prefix) that really occur in model.expression
+            out["inexpr"] = sorted(n for n in dfl if n in free)
+    return out
 
 
-def real_form2(reaction, tb, ops1, ops2) -> list[dict]:
+def real_form(reaction, tb, ops, cfg: dict | None = None):
+    log: list = []
+    lvl = logging.root.manager.disable
+    logging.disable(logging.WARNING)
+    try:
+        try:
+            b = build_with_ops(reaction, ops, recording_pool(log), cfg=cfg)
+            model = b.formulate()
+        except R1.ERRS as e:
+            return {"error": type(e).__name__}, None
+        return _form_answer(model, log, tb, reaction, b), model
+    finally:
+        logging.disable(lvl)
+
+
+def real_form2(reaction, tb, ops1, ops2, cfg: dict | None = None) -> list[dict]:
     """assign -> formulate -> re-assign -> formulate on ONE builder: answers of both formulate() calls."""
     log: list = []
     pool = recording_pool(log)
@@ -322,14 +481,37 @@ def real_form2(reaction, tb, ops1, ops2) -> list[dict]:
         for ops in (ops1, ops2):
             del log[:]
             try:
-                b = build_with_ops(reaction, ops, pool, builder=b)
+                b = build_with_ops(reaction, ops, pool, builder=b, cfg=cfg)
                 model = b.formulate()
-                out.append(_form_answer(model, log, tb))
+                out.append(_form_answer(model, log, tb, reaction, b))
             except R1.ERRS as e:
                 out.append({"error": type(e).__name__})
         return out
     finally:
         logging.disable(lvl)
+
+
+def form_agree(real: dict, lean: dict) -> bool:
+    """calls and defaults: equal.  skel: the component stored under a chain's name is the model's skeleton of one
+    of the chains with that name (identical-particle chains share a name; the last one written survives).
+    inexpr: equal whenever the real expression could be unfolded within the cap."""
+    a = {k: v for k, v in real.items() if k not in {"skel", "inexpr"}}
+    b = {k: v for k, v in lean.items() if k not in {"skel", "inexpr"}}
+    if a != b:
+        return False
+    if "skel" in real:
+        ls = lean.get("skel")
+        if ls is None or set(ls) != set(real["skel"]):
+            return False
+        by_name: dict = {}
+        for key, (name, _sk) in real["skel"].items():
+            by_name.setdefault(name, set()).add(ls[key])
+        for key, (name, sk) in real["skel"].items():
+            if sk not in by_name[name]:
+                return False
+    if "inexpr" in real and lean.get("inexpr", 0) is not None and real["inexpr"] != lean.get("inexpr"):
+        return False
+    return True
 
 
 def forced_ops(rng, reaction, tb, which: str) -> list[dict]:
@@ -364,6 +546,14 @@ def parse_form(line: str) -> dict:
         items = [] if v == "-" else v.split(",")
         if k == "calls":
             res["calls"] = count_items(items)
+        elif k == "skel":
+            d = {}
+            for it in items:
+                key, coef, hs, ds, fs = it.split("|")
+                d[key] = "|".join([coef] + [";".join(sorted(x.split(";"))) for x in (hs, ds, fs)])
+            res["skel"] = d
+        elif k == "inexpr":
+            res["inexpr"] = None if v == "skip" else sorted(R1.dec_name(n) for n in items)
         else:
             d = {}
             for it in items:
@@ -423,31 +613,61 @@ def spec_builder(ops, decay, denote_decay_of):
     return chosen
 
 
-def oracle_ratio(reaction, tb, ops, pre_ops=None) -> list[dict]:
+def oracle_ratio(reaction, tb, ops, pre_ops=None, cfg: dict | None = None) -> list[dict]:
     """Every chain amplitude with dynamics = the same amplitude without dynamics x product of the builders'
-    marker expressions on the node's OWN variables (markers only: builder ids >= 4, or 0)."""
+    marker expressions on the node's OWN variables (markers only: builder ids >= 4, or 0), under the builder
+    configuration `cfg` (both models); every parameter a dynamics builder returned occurs in model.expression."""
     import sympy as sp
 
     from ampform.helicity.decay import TwoBodyDecay
 
     log: list = []
-    pool = recording_pool(log)
+    introduced: set = set()
+    pool = recording_pool(log, introduced)
     lvl = logging.root.manager.disable
     logging.disable(logging.WARNING)
     try:
         if pre_ops:  # assign -> formulate -> re-assign -> formulate on ONE builder: judge the second model
-            b1 = build_with_ops(reaction, pre_ops, pool)
+            b1 = build_with_ops(reaction, pre_ops, pool, cfg=cfg)
             b1.formulate()
             b1 = build_with_ops(reaction, ops, pool, builder=b1)
             ops = [*pre_ops, *ops]
         else:
-            b1 = build_with_ops(reaction, ops, pool)
+            b1 = build_with_ops(reaction, ops, pool, cfg=cfg)
+        introduced.clear()
         m1 = b1.formulate()
-        b0 = build_with_ops(reaction, [], pool)
+        b0 = build_with_ops(reaction, [], pool, cfg=cfg)
         m0 = b0.formulate()
     finally:
         logging.disable(lvl)
     bad = []
+    for par in sorted(introduced, key=str):
+        if par not in m1.parameter_defaults:
+            bad.append({"what": "parameter returned by a dynamics builder has no default in the model", "parameter": str(par)})
+    # every parameter of a builder the SPECIFICATION attaches to a node of a chain whose amplitude symbol the intensity
+    # sums over occurs in model.expression (own derivation: spec_builder + the public amplitude-symbol generators)
+    from ampform.helicity.naming import create_amplitude_base, create_amplitude_symbol
+
+    bases: dict = {}
+    for t in reaction.transitions:
+        bases.setdefault(str(create_amplitude_base(t.topology)), set()).add(t.topology)
+    collision = any(len(v) > 1 for v in bases.values())  # equal base name, unequal topologies: later group overwrites (C01)
+    free = None if collision else expression_symbols(m1)
+    if free is not None:
+
+        referenced = R1.unfold(m1.intensity).atoms(sp.Indexed)
+        must = set()
+        for k, t in enumerate(reaction.transitions):
+            base = create_amplitude_base(t.topology)
+            for ch in tb.chains[k]:
+                if base[create_amplitude_symbol(ch).indices] not in referenced:
+                    continue  # helicity tuple of a swapped chain outside the summation pools (C01 territory)
+                for n in sorted(ch.topology.nodes):
+                    decay = TwoBodyDecay.from_transition(ch, n)
+                    if spec_builder(ops, decay, None) >= 4:
+                        must.add("c_{" + (decay.parent.particle.latex or decay.parent.particle.name) + "}")
+        for name in sorted(must - free):
+            bad.append({"what": "parameter introduced by a dynamics builder does not occur in model.expression", "parameter": name})
     expected: dict[str, set] = {}
     for k, t in enumerate(reaction.transitions):
         for ch in tb.chains[k]:
@@ -478,13 +698,36 @@ def oracle_ratio(reaction, tb, ops, pre_ops=None) -> list[dict]:
     return bad
 
 
-def oracle_defaults(reaction) -> list[dict]:
-    """Breit-Wigner with form factor on every resonance by name: m, Gamma defaults = particle table."""
+def parents_in_referenced_chains(reaction, tb, model) -> set | None:
+    """names of the decaying particles of chains whose amplitude symbol the intensity sums over; None when two
+    unequal topologies share an amplitude base name (the later group overwrites the earlier: C01 territory)"""
+    import sympy as sp
+
+    from ampform.helicity.naming import create_amplitude_base, create_amplitude_symbol
+
+    bases: dict = {}
+    for t in reaction.transitions:
+        bases.setdefault(str(create_amplitude_base(t.topology)), set()).add(t.topology)
+    if any(len(v) > 1 for v in bases.values()):
+        return None
+    referenced = R1.unfold(model.intensity).atoms(sp.Indexed)
+    out = set()
+    for k, t in enumerate(reaction.transitions):
+        base = create_amplitude_base(t.topology)
+        for ch in tb.chains[k]:
+            if base[create_amplitude_symbol(ch).indices] in referenced:
+                out |= {s.particle.name for e, s in ch.states.items() if e in ch.topology.intermediate_edge_ids}
+    return out
+
+
+def oracle_defaults(reaction, cfg: dict | None = None, tb=None) -> list[dict]:
+    """Breit-Wigner on every resonance by name: m, Gamma defaults = particle table, and m, Gamma occur in
+    model.expression (under the builder configuration `cfg`)."""
     from ampform.dynamics.builder import create_relativistic_breit_wigner
     from ampform.helicity import CanonicalAmplitudeBuilder, HelicityAmplitudeBuilder
 
     canonical = reaction.formalism in {"canonical-helicity", "canonical"}
-    b = (CanonicalAmplitudeBuilder if canonical else HelicityAmplitudeBuilder)(reaction)
+    b = apply_cfg((CanonicalAmplitudeBuilder if canonical else HelicityAmplitudeBuilder)(reaction), reaction, cfg)
     res = {s.particle.name: s.particle for t in reaction.transitions for e, s in t.states.items()
            if e in t.topology.intermediate_edge_ids}
     idents = {}
@@ -500,6 +743,8 @@ def oracle_defaults(reaction) -> list[dict]:
         logging.disable(lvl)
     pars = {getattr(k, "name", str(k)): v for k, v in model.parameter_defaults.items()}
     bad = []
+    live = parents_in_referenced_chains(reaction, tb, model) if tb is not None else None
+    free = expression_symbols(model) if live is not None else None
     for ident, ps in idents.items():
         if len({(p.mass, p.width) for p in ps}) > 1:
             continue  # `latex or name` does not identify the particle: outside the hypothesis
@@ -509,4 +754,6 @@ def oracle_defaults(reaction) -> list[dict]:
                 bad.append({"what": "missing default", "parameter": key})
             elif pars[key] != val:
                 bad.append({"what": "default differs from the particle table", "parameter": key, "default": pars[key], "table": val})
+            elif free is not None and p.name in live and key not in free:
+                bad.append({"what": "parameter introduced by a dynamics builder does not occur in model.expression", "parameter": key})
     return bad
